@@ -36,6 +36,9 @@ def cv(value, old, new):
     return float((value * scen.U(old)).to_value(scen.U(new)))
 
 
+ERR_UNIT_DIFFERS = [0]
+
+
 def reexpress(pr, rng):
     """same physical problem, new units everywhere"""
     p2 = scen.Problem()
@@ -46,7 +49,11 @@ def reexpress(pr, rng):
     for i, sv in enumerate(pr.surveys):
         un = du2 if i == 0 or rng.random() < 0.6 else vu()
         f = scen.U(sv["unit"]).to(scen.U(un))
-        p2.surveys.append(dict(t=sv["t"].copy(), rv=sv["rv"] * f, err=sv["err"] * f, unit=un))
+        eun = un if rng.random() < 0.5 else vu()      # uncertainties possibly in another unit than the velocities
+        fe = scen.U(sv.get("err_unit", sv["unit"])).to(scen.U(eun))
+        if eun != un:
+            ERR_UNIT_DIFFERS[0] += 1
+        p2.surveys.append(dict(t=sv["t"].copy(), rv=sv["rv"] * f, err=sv["err"] * fe, unit=un, err_unit=eun))
     d = copy.deepcopy(pr.desc)
     Pu = tu()
     d["P"] = dict(unit=Pu, P_min=cv(d["P"]["P_min"], d["P"]["unit"], Pu), P_max=cv(d["P"]["P_max"], d["P"]["unit"], Pu))
@@ -121,6 +128,10 @@ def run_case(ctx, g):
     n = len(pr.merged()[0])
     cfac = float(pr.data_unit.to(pr2.data_unit))          # values in twin = values in base * cfac
     nontriv = (g["index"],) if (cfac != 1.0 or pr2.desc["P"]["unit"] != "day" or pr2.desc["K"].get("P0_unit", "day") != "day") else None
+    if any(sv.get("err_unit", sv["unit"]) != sv["unit"] for sv in pr2.surveys):
+        ctx.count("twin with rv_err in another unit than rv")
+        if pr2.q > 0:
+            ctx.count("multi-survey twin with rv_err in another unit than rv")
     ctx.count(f"data_unit_ratio={cfac:g}"); ctx.count("P_unit=" + pr2.desc["P"]["unit"])
     ctx.count("K=" + pr.desc["K"]["kind"]); ctx.count(f"q={pr.q}"); ctx.count(f"p={pr.p}")
     inp = dict(base=dict(desc=pr.desc, surveys=[dict(unit=s["unit"], t=s["t"], rv=s["rv"], err=s["err"]) for s in pr.surveys]),
@@ -217,3 +228,5 @@ def post(ctx):
         ctx.require("data unit changed", sum(v for k, v in c.items() if k.startswith("data_unit_ratio=") and k != "data_unit_ratio=1"), 5)
         ctx.require("P prior not in days", c["P_unit=yr"] + c["P_unit=hour"], 5)
         ctx.require("default-K problems", c["K=fcm"], 5)
+        ctx.require("twins whose uncertainties are quoted in another unit than the velocities", c["twin with rv_err in another unit than rv"], 4)
+        ctx.require("... of which multi-survey", c["multi-survey twin with rv_err in another unit than rv"], 2)
